@@ -14,10 +14,14 @@
      - set_cursor (the only operation of iter.rs that could move the cursor backward) is not
        called anywhere in the crate (over Generated/Names.v).
 
-   PARTIAL: this is a statement about the cost model.  It is tied to the crate by the
-   correspondence check (status and travel of the extracted cost model against the
-   cfg(httparse_verif) counters of the real code, every backend), not by a proof; instruction
-   counts, cache effects and wall-clock time are outside the model and are measured, not proved. *)
+   The cost model is not a look-alike: `cost_model_runs_the_model_*` (below, Proofs/Erase.v) prove that, with the
+   two counters forgotten, every stage function, every scanner loop of every backend and the call sequences of
+   CostTop.v compute exactly what Scan.v / Model.v / Backends.v / Api.v compute (same outcome, same error kind), so the
+   bounds are bounds on the executions of the model -- and, through source_tie, of the translated source.
+   PARTIAL: which operations cost a tick is a modelling choice (CursorC.v); the counters are tied to the crate by the
+   correspondence check (status and travel of the extracted cost model against the cfg(httparse_verif) counters of the
+   real code, every backend); instruction counts, cache effects and wall-clock time are outside the model and are
+   measured, not proved. *)
 From Coq Require Import List NArith ZArith Lia Bool String.
 From HV Require Import CursorC CostTop AllocFree.
 From HV.Generated Require Import Names Cfg CScan CModel CBackends.
@@ -101,3 +105,90 @@ Example work_example :
   let '(cls, tk, tr) := run_work (request_prog (env_of 8 BSwar) (S (List.length buf)) false (mkhcfg false true false false) 4) buf in
   cls = 0%N /\ tr = 30 /\ tk = 44.
 Proof. vm_compute. repeat split; reflexivity. Qed.
+
+(* ---- the cost model runs the model (Proofs/Erase.v) ---- *)
+From HV Require Model Api Backends.
+From HV.Proofs Require Erase.
+
+Definition class_of (st : Model.status) : N :=
+  match st with Model.Complete _ => 0%N | Model.Partial => 1%N | Model.Error _ => 2%N | Model.Faulted _ => 3%N end.
+Definition c_hcfg (h : Model.hcfg) : hcfg :=
+  mkhcfg (Model.allow_spaces_after_header_name h) (Model.allow_obsolete_multiline_headers h)
+         (Model.allow_space_before_first_header_name h) (Model.ignore_invalid_headers h).
+Lemma hc_er_c_hcfg h : Erase.hc_er (c_hcfg h) = h.
+Proof. destruct h; reflexivity. Qed.
+
+Lemma class_agree {A} (pc : P A) (m : Cursor.P nat) buf st :
+  (forall c, match pc c, m (Erase.er c) with
+             | Done _ _, Cursor.Done _ _ => True | Part _ _, Cursor.Part => True
+             | Fail e _ _, Cursor.Fail e' => e = e' | Fault f, Cursor.Fault f' => f = f' | _, _ => False end) ->
+  Erase.agree_st (m (Cursor.cur_new buf)) st ->
+  fst (fst (run_work pc buf)) = class_of st.
+Proof.
+  intros H1 H2. unfold run_work. specialize (H1 (cur_new buf)). change (Erase.er (cur_new buf)) with (Cursor.cur_new buf) in H1.
+  destruct (pc (cur_new buf)), (m (Cursor.cur_new buf)), st; cbn in *; try contradiction; try discriminate; reflexivity.
+Qed.
+
+Theorem cost_model_runs_the_model_request : forall W b cf buf rq arr,
+  fst (fst (run_work (request_prog (env_of W b) (S (List.length buf))
+                        (Api.allow_multiple_spaces_in_request_line_delimiters cf)
+                        (c_hcfg (Api.request_hcfg cf)) (List.length arr)) buf))
+  = class_of (fst (fst (Api.request_core (Backends.env_of W (Erase.be_er b)) cf buf rq arr))).
+Proof.
+  intros W b cf buf rq arr.
+  eapply (class_agree _ (Erase.request_plain (Backends.env_of W (Erase.be_er b)) (S (List.length buf))
+            (Api.allow_multiple_spaces_in_request_line_delimiters cf) (Api.request_hcfg cf) (List.length arr))).
+  - intros c. pose proof (Erase.ers_request_prog _ _ (Erase.env_of_ers W b) (S (List.length buf))
+                            (Api.allow_multiple_spaces_in_request_line_delimiters cf) (c_hcfg (Api.request_hcfg cf))
+                            (List.length arr) c) as H.
+    rewrite hc_er_c_hcfg in H.
+    unfold Erase.ers, Erase.ersf in H.
+    destruct (request_prog _ _ _ _ _ c), (Erase.request_plain _ _ _ _ _ _); try contradiction; try exact Logic.I; exact H.
+  - apply Erase.request_plain_agree.
+Qed.
+Print Assumptions cost_model_runs_the_model_request.
+
+Theorem cost_model_runs_the_model_response : forall W b cf buf rp arr,
+  fst (fst (run_work (response_prog (env_of W b) (S (List.length buf))
+                        (Api.allow_multiple_spaces_in_response_status_delimiters cf)
+                        (c_hcfg (Api.response_hcfg cf)) (List.length arr)) buf))
+  = class_of (fst (fst (Api.response_core (Backends.env_of W (Erase.be_er b)) cf buf rp arr))).
+Proof.
+  intros W b cf buf rp arr.
+  eapply (class_agree _ (Erase.response_plain (Backends.env_of W (Erase.be_er b)) (S (List.length buf))
+            (Api.allow_multiple_spaces_in_response_status_delimiters cf) (Api.response_hcfg cf) (List.length arr))).
+  - intros c. pose proof (Erase.ers_response_prog _ _ (Erase.env_of_ers W b) (S (List.length buf))
+                            (Api.allow_multiple_spaces_in_response_status_delimiters cf) (c_hcfg (Api.response_hcfg cf))
+                            (List.length arr) c) as H.
+    rewrite hc_er_c_hcfg in H.
+    unfold Erase.ers, Erase.ersf in H.
+    destruct (response_prog _ _ _ _ _ c), (Erase.response_plain _ _ _ _ _ _); try contradiction; try exact Logic.I; exact H.
+  - apply Erase.response_plain_agree.
+Qed.
+Print Assumptions cost_model_runs_the_model_response.
+
+Theorem cost_model_runs_the_model_headers : forall W b src dst,
+  fst (fst (run_work (headers_only_prog (env_of W b) (S (List.length src)) (List.length dst)) src))
+  = class_of (fst (fst (Api.parse_headers (Backends.env_of W (Erase.be_er b)) src dst))).
+Proof.
+  intros W b src dst. unfold headers_only_prog.
+  eapply (class_agree _ (Erase.headers_plain (Backends.env_of W (Erase.be_er b)) (S (List.length src)) (S (List.length src))
+            Model.hcfg_default (List.length dst) 0)).
+  - intros c. pose proof (Erase.ers_headers_prog _ _ (Erase.env_of_ers W b) (S (List.length src)) (S (List.length src))
+                            hcfg_default (List.length dst) 0 c) as H.
+    change (Erase.hc_er hcfg_default) with Model.hcfg_default in H. unfold Erase.ers, Erase.ersf in H.
+    destruct (headers_prog _ _ _ _ _ _ c), (Erase.headers_plain _ _ _ _ _ _ _); try contradiction; try exact Logic.I; exact H.
+  - apply Erase.headers_only_agree.
+Qed.
+Print Assumptions cost_model_runs_the_model_headers.
+
+Theorem cost_model_runs_the_model_chunk : forall dbg buf,
+  fst (fst (run_work (chunk_loop dbg (S (List.length buf)) 0 true false 0) buf))
+  = class_of (fst (Model.parse_chunk_size dbg buf)).
+Proof.
+  intros dbg buf. unfold run_work, Model.parse_chunk_size.
+  pose proof (Erase.ers_chunk_loop dbg (S (List.length buf)) 0%N true false 0 (cur_new buf)) as H.
+  unfold Erase.ers, Erase.ersf in H. change (Erase.er (cur_new buf)) with (Cursor.cur_new buf) in H.
+  destruct (chunk_loop _ _ _ _ _ _ _), (Model.chunk_loop _ _ _ _ _ _ _); cbn in *; try contradiction; reflexivity.
+Qed.
+Print Assumptions cost_model_runs_the_model_chunk.
